@@ -1,5 +1,6 @@
-"""C18 timed Queue / Executor / TaskExecutor: hand model (coq/C18_Timed) + lockstep scenarios, timing histories and a
-hook-driven late-cancel test (DESIGN.md §7.18)."""
+"""C18 timed Queue / Executor / TaskExecutor: hand model (coq/C18_Timed) + lockstep scenarios, timing histories, a
+hook-driven late-cancel test and the window family (worker held at every yield point of Poll / the TaskExecutor wrapper
+x client operations completed meanwhile; DESIGN.md §7.18, notes/C18.md)."""
 from . import lib
 
 LEVEL = "proof"
@@ -13,16 +14,16 @@ def run(ctx):
         "hand-written model of runtime/timed queue.go/executor.go/taskexecutor.go over container/heap (Model.v), tied to the code by the correspondence check only",
         "Go select semantics as modelled: a goroutine parked in a select is woken by the first channel that becomes ready; a select entered with several ready channels picks any of them",
         "QueueElement.rawElem.Index() is modelled as the position of the element in the heap array (the index field is maintained by generalheap.Swap/Push/Pop)",
-        "yield hook timed.VerifYield (build tag verif) between pop and select in Queue.Poll",
+        "yield hook timed.VerifYield (build tag verif): in Queue.Poll between pop and select, after the select on the ctx / ignore-timeouts / timer (outer and inner) paths before the value is returned, and in the TaskExecutor wrapper before it takes its mutex and before the callback",
     ])
     if thorough:
         for k in range(4):
             ctx.seed += 1000
-            ctx.corr(hx, ["run", "--scripts", "500", "--len", "16", "--hists", "256", "--grid", "50", "--hook", "2000"],
+            ctx.corr(hx, ["run", "--scripts", "500", "--len", "16", "--hists", "256", "--grid", "50", "--hook", "2000", "--windows", "12"],
                      cases_name="cases%d.v" % k)
         ctx.seed -= 4000
     else:
-        ctx.corr(hx, ["run", "--scripts", "200", "--len", "12", "--hists", "96", "--grid", "50", "--hook", "600"])
+        ctx.corr(hx, ["run", "--scripts", "200", "--len", "12", "--hists", "96", "--grid", "50", "--hook", "600", "--windows", "6"])
     ctx.assumptions += [
         "Queue.Add's shutdown test and its push are one atomic step of the model (the code tests IsShutdown before taking heapMutex; an Add racing with Shutdown was not reproduced in 3000 trials)",
         "PanicOnModificationsAfterShutdown, DontWaitForShutdown/shutdownWG and Poll(waitIfEmpty=false) are outside the model; workers are Poll(true) loops as in Executor.startBackgroundWorkers",
